@@ -55,7 +55,7 @@ class LoopCheck(Check):
                             "sampler": s,
                             "N": 3 if (sched.startswith("adaptive") and tier != "quick") else 2,
                             "d": 1,
-                            "T": 4 if sched == "fixed4" else (2 if tier == "quick" else 3),
+                            "T": 4 if sched.startswith("fixed4") else (2 if tier == "quick" else 3),
                             "D": 4,
                             "timeout_ms": 120000,
                             "split_depth": 8 if sched.startswith("adaptive") else 2,
